@@ -546,6 +546,9 @@ func gallery(args []string) {
 					}
 					ts.lvl = 0
 				}
+				if sk.Thin && ts.lvl == 2 && !thorough {
+					continue // the many key-class sinks see the two-symbol suffixes in the thorough tier only
+				}
 				out, err := render(sk, ts.s)
 				lr++
 				if err != nil {
